@@ -704,6 +704,10 @@ def floatExactM : Value.Members → Bool
   | (_, v) :: ms => floatExact v && floatExactM ms
 end
 
+/-- a pointer the RFC rejects or reads differently from the legacy package -/
+def legacyLoose (p : Bytes) : Bool :=
+  (Spec.parsePointer p).isNone
+
 def handleLApply (id : String) (args : List String) : String :=
   match args with
   | negS :: limitS :: doc :: patch :: "=>" :: obsS :: rest =>
@@ -718,6 +722,9 @@ def handleLApply (id : String) (args : List String) : String :=
       let rootish : Bool := match specPatch p with
         | some ops => ops.any fun op => (op.kind = .add && op.path = []) || (op.kind = .copy && op.frm = []) || (op.kind = .replace && op.path = [])
             || (op.kind = .test && op.value.isNone)      -- RFC 6902 requires a value; the legacy decoder does not validate
+            -- RFC 6901 strictness the legacy package does not have (and C18 does not list):
+            -- pointers without a leading '/'
+            || legacyLoose op.path || (op.frm != [] && legacyLoose op.frm)
         | none => true
       -- C18's domain: "strings compared by test operations are spelled without escapes and
       -- without <, >, &" (v4 compares spellings, and `copy` re-spells its value with HTML escapes)
